@@ -1,6 +1,6 @@
 """C19 Unknown prepared statements are transparently re-prepared (W-FULL, protocols 4 and 5)."""
 from dsim import seams
-from dsim.core import HarnessError
+from dsim.core import HarnessError, Deadlock
 from props.common import gen_stalls, gen_strategy, quiet_logging, Violations
 from worlds.reqpath import ReqPathRun, base_plan, RETRY, RETRY_NEXT_HOST, RETHROW
 from worlds.full import ReqObs
@@ -55,7 +55,7 @@ def gen_plan(rng, tier):
         p['requests'].append({'thread': 0, 'plan': order, 'idempotent': True, 'sync': True,
                               'lost': rng.choice(['evict', 'evict', 'scripted', 'none']),
                               'reprepare': rng.choice(['ok', 'ok', 'ok', 'error', 'different_id', 'close']),
-                              'exec_delay': rng.choice([0.002, 0.03]),
+                              'exec_delay': rng.choice([0.002, 0.03]), 'timeout': rng.choice([5.0, 5.0, None]),
                               'decisions': [[RETRY_NEXT_HOST, None]] * 3})
     if p['ks_switch']:
         for r in p['requests']:
@@ -107,14 +107,19 @@ def run_plan(plan, seed, choices=None):
             o = run.obs[i] = ReqObs(w, i)
             o.mark = sim.nlog
             try:
-                o.start(session, ps.bind((i,)), timeout=5.0)
+                o.start(session, ps.bind((i,)), timeout=r.get('timeout', 5.0))
+                if r.get('timeout', 5.0) is None:
+                    sim.probe('request_without_timeout')
                 o.wait()
             except Exception as e:
                 o.result = ('err', type(e).__name__, str(e)[:160])
             w.sleep(0.3)
             o.mark_end = sim.nlog
     run.user = user
-    status = run.run(settle=1.0)
+    try:
+        status = run.run(settle=1.0)
+    except Deadlock:
+        status = 'deadlock'          # a request without a client timeout that never completes blocks its caller for good: judged below
     if st.get('prepare_error'):
         raise HarnessError('prepare failed: %s' % st['prepare_error'])
     V = Violations()
@@ -139,7 +144,8 @@ def run_plan(plan, seed, choices=None):
             V.check('C19/reprepare')
             for e in mine:
                 if e['op'] == 'PREPARE':
-                    said = set(x['node'] for x in unprep if x['seq'] < e['seq'])
+                    # (PREPARE frames carry no request id: a speculative attempt of an earlier request may still be re-preparing)
+                    said = set(x['node'] for x in alllog if x.get('unprepared') and x['seq'] < e['seq'])
                     if e['node'] not in said:
                         V.add('C19/reprepare', 'reprepare-on-other-node', 'request %d (speculative run): PREPARE sent to node %d, UNPREPARED came from %r'
                               % (i, e['node'], sorted(said)))
